@@ -265,6 +265,8 @@ def run_case(case, res):
         if len(nodes) == 1:
             for tolname in ("default", "none"):
                 check_remove(res, U, p, gen, gw, "frac", nodes, tolname, "direct")
+            # a rational curve whose weighted numerator is constant (P_i = 1/w_i): only the weight function resists
+            check_remove(res, U, p, [1 / w for w in gw], gw, "frac", nodes, "default", "direct")
             check_remove(res, U, p, gen, None, "float", nodes, "default", "direct")
             check_remove(res, U, p, gen, None, "float", nodes, "none", "direct")
     # invalid requests: absent knot, end knot, outside
